@@ -126,6 +126,10 @@ func (c *RecConn) Get(key string) ([]byte, error) {
 			if pos < len(v) {
 				v[pos] ^= 0x20
 			}
+		case "flipat1": // another letter, not the same letter in the other case
+			if pos < len(v) {
+				v[pos] ^= 0x01
+			}
 		case "truncat":
 			if pos < len(v) {
 				v = v[:pos]
